@@ -73,7 +73,7 @@ func init() {
 		Level: "fault_enumeration",
 		Cases: func(t string) int {
 			if t == ev.Thorough {
-				return 320
+				return 240
 			}
 			return 48
 		},
@@ -81,7 +81,7 @@ func init() {
 		Rule: "case = one history of WriteBytes (payload lengths biased to 0,1,2,7,8,9,55,56,255,256,4087,4088,4089,4096,8184,8192 and random) / Sync / Shift / Close+reopen on the real file WAL (2/3 with housekeeping idle and explicit Shift, 1/3 with a 10 ms housekeeper and a FileLimit of 64..600 bytes so that doHousekeeping rotates; the history waits until the new segment is observable). Crash = copy of the segment files with the newest segment truncated to EVERY length from its synced length to its current length (byte-exhaustive for tails up to 700 bytes quick / 1500 thorough; larger tails: all offsets within 12 bytes of a frame boundary or a 4096 multiple, the first and last 200, and 200 random ones), plus the variant where a just-created empty newest segment is absent. Each image is recovered with the protocol of consensus.applyRoundWAL (read until error; EOF clean; corrupted/unexpected EOF -> CloseAndRepair; when a repair happened the log is reopened once more), then a writer is reopened, 1-2 records are appended and synced, optionally Shift, 0-2 further records stay unsynced, and the log is crashed again: byte-exhaustively for images selected by class (boundary classes with the per-depth probabilities of the tier), otherwise only with the complete tail; depth 3 quick / 5 thorough. Oracle after EVERY recovery: synced ⊑ recovered ⊑ appended. Non-trivial = distinct crash image (hash of the whole lineage) whose crash offset is strictly inside a frame (header or payload) or at the start of a rotated segment.",
 		MinNonTrivial: func(t string) int {
 			if t == ev.Thorough {
-				return 500000
+				return 300000
 			}
 			return 20000
 		},
@@ -101,7 +101,7 @@ func init() {
 		},
 		TimeoutSec: func(t string) int {
 			if t == ev.Thorough {
-				return 3000
+				return 5400
 			}
 			return 600
 		},
